@@ -326,6 +326,8 @@ def run_job(job, tier, inc_extra, keep_dir=None):
             cb += ['--unwind', str(job.unwind), '--unwinding-assertions']
         for u in job.unwindset:
             cb += ['--unwindset', u]
+        if job.unwindset and job.unwind is None:
+            cb += ['--unwinding-assertions']
         if job.object_bits:
             cb += ['--object-bits', str(job.object_bits)]
         res.cmdline = ' '.join(os.path.basename(x) if x.startswith('/tmp') else x for x in gi[:-2]) + ' ; ' + \
